@@ -1,8 +1,10 @@
 #!/bin/sh
 # Runs the thorough tier of every built check once; prints exit code and wall time of each.
 HERE="$(cd "$(dirname "$0")/.." && pwd)"; cd "$HERE"
+bad=0
 for p in ${*:-$(cat tools/built.txt)}; do
   s=$(date +%s); out=$(./check $p --tier thorough 2>&1); rc=$?; e=$(date +%s)
   echo "$p exit=$rc wall=$((e-s))s $(echo "$out" | grep -E '^done' | cut -c1-160)"
-  [ $rc -ne 0 ] && echo "$out" | grep -E "^violation|harness|^also" | cut -c1-400
+  if [ $rc -ne 0 ]; then bad=1; echo "$out" | grep -E "^violation|harness|^also" | cut -c1-400; fi
 done
+exit $bad
